@@ -24,16 +24,16 @@ def run(ctx):
                 "DetailedBalanceVac on extracted tables; real samplers replayed per state); random even cluster values, "
                 "integer KRA and TS-cluster values, random spectators; non-trivial = distinct (config, occupation, "
                 "transition) with a reported barrier")
-    # hcp221 / hcp221v: two mobile sites per cell, jumps between DIFFERENT basis sites (with and without a vacancy)
-    cfgs = ["sc221j", "b2s221", "fccnd", "sc221v", "b2s221v", "tet2_211", "tet2_211v", "hcp221v", "hcp221"]
+    # hcp221p / hcp221v: two mobile sites per cell, jumps between DIFFERENT basis sites (without / with a vacancy)
+    cfgs = ["sc221j", "b2s221", "fccnd", "sc221v", "b2s221v", "tet2_211", "tet2_211v", "hcp221v", "hcp221p"]
     if not quick:
-        cfgs += ["sc222j", "sc222v", "fcc222", "fcc222v", "b2s222", "b2s222v"]
+        cfgs += ["sc222j", "sc222v", "fcc222", "fcc222v", "hcp221", "b2s222", "b2s222v"]
     for rep in range(1 if quick else 2):
         for name in cfgs:
             db_check(ctx, name)
 
 
-def db_check(ctx, name):
+def db_check(ctx, name, stride=1):
     s = samplers.build(name, ctx.rng)
     tab = samplers.tables(s)
     NS, vac = tab["NS"], tab["Vac"]
@@ -77,7 +77,9 @@ def db_check(ctx, name):
     ctx.sample({"config": name, "sites": NS, "vacancy": vac, "jumps": len(tab["Jumps"]),
                 "occupations": len(nodes), "values": s.values})
     MC = s.MC
-    for nid, n in nodes.items():
+    for kk, (nid, n) in enumerate(sorted(nodes.items(), key=lambda kv: kv[1]["occ"])):
+        if kk % stride:
+            continue
         occ = np.array(n["occ"], dtype=int)
         MC.start(occ.copy())
         E0 = MC.E()
